@@ -2,36 +2,36 @@
 """writes MANIFEST.json from the table below (keeps it valid and in one place)"""
 import json, os
 CHECKS = {
- 'C02': dict(technique='taint + interval range checker with the decoder\'s option-length table as bound (R-RANGE), declared-length cap rule (R-STREAM-CAP), parse-before-dispatch and reject-arm typestate (R-PARSE-GATE), library-wide stale-buffer-pointer typestate (R-FIXUP)',
+ 'C02': dict(technique='taint + interval range checker with the decoder\'s option-length table as bound (R-RANGE), declared-length cap rule (R-STREAM-CAP), parse-before-dispatch and reject-arm typestate (R-PARSE-GATE), library-wide stale-buffer-pointer typestate (R-FIXUP), compare-within-length relation analysis on (pointer,length) pairs (R-CMP-BOUND), inductive capacity-guard rule on persistent element counts (R-COUNT-CAP)',
              text='Decides necessary structural conditions of memory safety on the receive surface: wire-derived indices/copy sizes into fixed-size objects proven in '
                   'range (bounds taken from the decoder\'s own per-option table), CBOR-declared sizes compared with what is left, wire-derived shift counts bounded, '
                   'declared lengths capped with the session closed on excess, rejection of every malformed-input condition before dispatch, no use of a PDU buffer '
-                  'pointer after a possible reallocation. Absence of all memory errors / UB for all inputs and histories, termination and continued service are '
+                  'pointer after a possible reallocation, every memcmp/strncmp over a length-delimited string bounded by that string\'s own length, and a persistent count that bounds a fixed array only incremented behind one common capacity guard. Absence of all memory errors / UB for all inputs and histories, termination and continued service are '
                   'not decided; persistent reader-state indices are declined.',
              design='6 C02'),
- 'C14': dict(technique='case-label dataflow of option numbers into the outer/inner PDU roles against the RFC 8613 Figure 5 table, tested-result gating of the decrypt call (R-OSC-SPLIT)',
-             text='Decides two clauses of C14: the outer/inner option split (no class E option reaches the unprotected PDU; unnamed options go inner) and that no '
-                  'message is accepted unless cose_encrypt0_decrypt returned > 0. Byte equality with an independent RFC 8613 implementation and the round trip '
+ 'C14': dict(technique='case-label dataflow of option numbers into the outer/inner PDU roles against the RFC 8613 Figure 5 table, tested-result gating of the decrypt call (R-OSC-SPLIT), role typing of byte-string flows between the COSE object and the request/response association (R-OSC-ROLE)',
+             text='Decides three clauses of C14: the outer/inner option split (no class E option reaches the unprotected PDU; unnamed options go inner), that no '
+                  'message is accepted unless cose_encrypt0_decrypt returned > 0, and that the association carrying the request\'s AAD/nonce/partial IV to the response is filled, refreshed and read back from fields of the same role. Byte equality with an independent RFC 8613 implementation and the round trip '
                   'are not decided.',
              design='6 C14'),
- 'C19': dict(technique='who-may-call plus path-fact gating at the call sites, single-writer rule on the established flag under the GNUTLS_E_SUCCESS case label (R-ROUTE)',
+ 'C19': dict(technique='who-may-call plus path-fact gating at the call sites, single-writer rule on the established flag under the GNUTLS_E_SUCCESS case label (R-ROUTE), verdict typestate on the application\'s identity/hint validation callbacks (R-PSK-VERDICT)',
              text='Decides the routing/gating clauses of C19: cleartext processing only for UDP or inside an established TLS record read, established only on '
-                  'handshake success, session-connected and record I/O only afterwards, transmission only in state ESTABLISHED. Credential acceptance (inside '
+                  'handshake success, session-connected and record I/O only afterwards, transmission only in state ESTABLISHED; in the PSK callbacks the application\'s verdict on an identity/hint is never replaced and a NULL verdict never reaches a success return. Credential acceptance (inside '
                   'GnuTLS), handshake schedules and NACK-once of queued requests are not decided.',
              design='6 C19'),
- 'C20': dict(technique='path-sensitive guard check of every store through the output cursor and of the space handed to the callee (R-OUT-BOUND)',
-             text='Decides one clause of C20 - nothing is written outside the window the caller supplied: every cursor store holds cursor < end for the current '
-                  'cursor value and coap_print_link receives end - cursor. Window/total/truncation exactness and filter semantics are not decided.',
+ 'C20': dict(technique='path-sensitive guard check of every store through the output cursor and of the space handed to the callee (R-OUT-BOUND), compare-within-length relation analysis in the query-filter matcher (R-CMP-BOUND)',
+             text='Decides two clauses of C20. Nothing is written outside the window the caller supplied: every cursor store holds cursor < end for the current '
+                  'cursor value and coap_print_link receives end - cursor. The filter compares a pattern with a value/token/path only within, and decides an exact match against, the length of the string actually compared. Window/total/truncation exactness and the rest of the filter semantics are not decided.',
              design='6 C20'),
- 'C09': dict(technique='call-exactly-once / hand-over / store-and-link typestate on the release callback (R-RELEASE-ONCE)',
-             text='Decides one clause of C09 - the sender\'s release callback runs exactly once - on every path of every function that takes a release_func and of '
+ 'C09': dict(technique='call-exactly-once / hand-over / store-and-link typestate on the release callback (R-RELEASE-ONCE), compare-within-length relation analysis on the transfer keys (R-CMP-BOUND)',
+             text='Decides two clauses of C09: transfers are told apart by their full keys (token, Request-Tag, query, path compared only with the compared length known within/equal to both operands\' lengths), and the sender\'s release callback runs exactly once on every path of every function that takes a release_func and of '
                   'the lg_xmit deleter. One genuine defect (request == NULL in coap_add_data_large_response_lkd) is a known finding. Body integrity, tiling, '
                   'at-most-once delivery, token hiding and size fitting quantify over runtime lengths and schedules and are not decided.',
              design='6 C09'),
- 'C10': dict(technique='linear ownership of the response object (R-OWN-PDU) and emission-count typestate over coap_dispatch/handle_request (R-REPLY-ONCE)',
+ 'C10': dict(technique='linear ownership of the response object (R-OWN-PDU) and emission-count typestate over coap_dispatch/handle_request (R-REPLY-ONCE), flag/class agreement of the suppression decision table (R-SUPPRESS-TAB)',
              text='Decides the clause "at most one direct reply per request datagram": every reply object is created once and sent or deleted exactly once on '
-                  'every path, and no path passes two emission points except Empty ACK followed by the response. The reply-code table, handler selection '
-                  'and suppression rules are not decided.',
+                  'every path, and no path passes two emission points except Empty ACK followed by the response. Also decides the internal agreement of the suppression table in no_response(): each per-resource multicast flag is paired with the response class its public name states on the arm its polarity demands, the No-Response bitmap is indexed with class-1. The reply-code table, handler selection '
+                  'and when suppression applies are not decided.',
              design='6 C10'),
  'C06': dict(technique='send-queue node typestate {owned, in send queue, in delay queue, deleted} via the linear-ownership engine (R-OWN-NODE), gate/count/NACK-once typestate in coap_retransmit (R-RETRANS)',
              text='Decides on every path that a queue node has one owner and one disposal (never leaked, never deleted while linked in a delay queue, never used '
@@ -44,12 +44,12 @@ CHECKS = {
                   'increment only below the NSTART comparison, transmitters count. These are necessary for the in-flight bound; the bound itself under all '
                   'ACK/RST orders and the FIFO order of held messages are not decided.',
              design='6 C08'),
- 'C15': dict(technique='who-may-write rule on the anti-replay fields (R-REPLAY-OWN), snapshot/restore and rollback-before-exit typestate (R-REPLAY-RB), must-pass-through validation (R-REPLAY-MUST), interval check of shift counts (R-RANGE)',
+ 'C15': dict(technique='who-may-write rule on the anti-replay fields (R-REPLAY-OWN), snapshot/restore and rollback-before-exit typestate (R-REPLAY-RB), must-pass-through validation (R-REPLAY-MUST), interval check of shift counts (R-RANGE), persist-before-use difference analysis on the sender sequence number and its watermark (R-SSN-ORDER)',
              text='Decides the state discipline behind replay protection: only the window functions write the replay fields, everything the validation modifies '
                   'is saved and restored on every path of the roll-back, unauthenticated exits roll back, every accepted request passed a successful validation, '
-                  'and window shifts are bounded. Seven genuine defects of the current tree (upstream design flaws that need a coordinated rewrite) are recorded '
-                  'in known_findings.txt and printed as KNOWN-FINDING on every run; any other violation fails. Acceptance over histories and nonce reuse '
-                  'across restarts are not decided.',
+                  'window shifts are bounded, and the sender sequence number is stepped by +1 exactly once between its use as partial IV and the successful return with the watermark comparison implying used+1 <= saved value on the skipping arm and the other arm advancing and saving the watermark. Seven genuine defects of the current tree (upstream design flaws that need a coordinated rewrite) are recorded '
+                  'in known_findings.txt and printed as KNOWN-FINDING on every run; any other violation fails. Acceptance over histories and the numeric side of the watermark (ssn_freq >= 1, start-up rounding) '
+                  'are not decided.',
              design='6 C15'),
  'C16': dict(technique='cursor/remaining-length availability analysis of look-ahead reads (R-LEN-READ), constant evaluation of the character-class predicates over all 256 bytes (R-URI-CLASS), NULL-check typestate (R-ALLOC-NULL)',
              text='Decides that the URI scanners never read behind the length-delimited input (every cursor[k] read is covered by a proven lower bound of the '
@@ -80,23 +80,23 @@ CHECKS = {
                   'the buffer survives a call that may reallocate it, and that lengths are not truncated on store. Necessary for "edits change only what they name"; '
                   'equality with the list model after arbitrary edit sequences is not decided.',
              design='6 C04'),
- 'C12': dict(technique='reference-count pairing typestate (R-REF-TMP), computed holder types with release-before-free (R-REF-HOLD), event-before-free must-precede rule (R-SESS-EVT), linear ownership of local heap objects (R-OWN-LOCAL)',
+ 'C12': dict(technique='reference-count pairing typestate (R-REF-TMP), computed holder types with release-before-free (R-REF-HOLD), event-before-free must-precede rule (R-SESS-EVT), linear ownership of local heap objects (R-OWN-LOCAL), drain-before-gated-free ordering in the context destructor (R-TEARDOWN)',
              text='Every path of every library function: temporary session references are paired; every object type that stores a session reference '
                   '(computed from the assignments) releases it before it is freed or cleared, also through freeing helpers; a server session is freed only '
                   'after SERVER_SESSION_DEL was raised for it; strings/binaries/optlists/cache keys created in a function are released, stored, returned or '
-                  'handed on on every path. Necessary for "live while referenced; everything released; one NEW/DEL event". Peer-to-session bijection and '
+                  'handed on on every path; the context destructor drains every collection of reference holders before the endpoint destructor that only frees unreferenced sessions. Necessary for "live while referenced; everything released; one NEW/DEL event". Peer-to-session bijection and '
                   'reclamation timing are not decided.',
              design='6 C12'),
- 'C18': dict(technique='NULL-check typestate for computed may-fail constructors (R-ALLOC-NULL) + linear ownership of PDUs with computed consumer summaries (R-OWN-PDU)',
+ 'C18': dict(technique='NULL-check typestate for computed may-fail constructors (R-ALLOC-NULL) + linear ownership of PDUs with computed consumer summaries (R-OWN-PDU), alias-window typestate after shallow struct copies against computed destructor frees (R-SHALLOW-ALIAS)',
              text='Library-wide, every path: the result of every (computed) may-fail constructor is NULL-tested before any dereference or hand-over to a '
                   'dereferencing callee; every PDU created or received through a consuming parameter is released/handed on/stored exactly once, never used '
-                  'after release; the frozen consumer contracts (coap_send*, coap_session_delay_pdu, coap_send_q_block*) are checked against their own bodies. '
+                  'after release; the frozen consumer contracts (coap_send*, coap_session_delay_pdu, coap_send_q_block*) are checked against their own bodies; after a shallow struct copy no destructor that frees a still-aliased owned field runs before that field got its own buffer. '
                   'Necessary for surviving allocation failure without crash or leak; "the next operation succeeds" is not decided.',
              design='6 C18'),
- 'C13': dict(technique='lock typestate {U,L,F} + in_callback counter over all paths and calling contexts (ESP-style property simulation), capability/mechanism configuration rule',
+ 'C13': dict(technique='lock typestate {U,L,F} + in_callback counter over all paths and calling contexts (ESP-style property simulation), capability/mechanism configuration rule, owner typestate on the lock object\'s bookkeeping fields inside the lock primitives (R-LOCK-OWNER)',
              text='Path- and context-exhaustive lock-discipline analysis with thread safety forced on and asserts visible: balance of lock/unlock and '
                   'in_callback on every path, every function that reaches the project\'s own precondition marker is entered locked, no locking wrapper is '
-                  'called from locked code, application callbacks run unlocked or with in_callback>0, no unbounded wait while locked, and the shipped '
+                  'called from locked code, application callbacks run unlocked or with in_callback>0, no unbounded wait while locked, the lock object\'s owner id and nesting counters are only written by the thread owning the mutex, and the shipped '
                   'configuration really compiles the locking it advertises. Necessary for serialisation and deadlock freedom; data races on deliberately '
                   'unlocked accessors and progress under all schedules are not decided.',
              design='6 C13'),
